@@ -1369,6 +1369,10 @@ def c08_shapes(thorough):
   rchain = ('if', Bin('>', x, N(1)), ('rec', (('a', x), ('b', lang.S('big')))), ('if', Bin('==', x, N(1)), ('rec', (('a', Bin('-', N(0), x)), ('b', lang.S('mid')))), ('rec', (('a', N(0)), ('b', lang.S('small'))))), 'flat')
   S['record_if_argument'] = ([R('P', x, rchain, body=(Lit('B', x),)), R('T', x, ('fld', V('r'), 'a'), ('fld', V('r'), 'b'), body=(Lit('P', x, V('r')),)), R('U', x, ('fld', V('r'), 'b'), body=(Lit('P', x, V('r')), Cmp('>', ('fld', V('r'), 'a'), N(0)))),
                                  R('W', x, V('a'), V('b'), body=(Lit('P', x, V('r')), Eq(V('a'), ('fld', V('r'), 'a')), Eq(V('b'), ('fld', V('r'), 'b'))))], ['P'])
+  # two independent chains of WITH-compiled predicates (multi-rule base -> aggregate) shared by a grounded statement and the main query
+  S['two_with_chains_under_ground'] = ([R('A0', x, body=(Lit('B', x),)), R('A0', x, body=(Lit('A', x, y),)), D('Aq', x, Aggr('Count', x), body=(Lit('A0', x),)),
+                                        R('B0', y, body=(Lit('A', x, y),)), R('B0', x, body=(Lit('B', x), Cmp('>', x, N(0)))), D('Bq', x, Aggr('Sum', x), body=(Lit('B0', x),)),
+                                        R('G', x, body=(Lit('Aq', x, y), Lit('Bq', x, z))), R('T', x, y, z, body=(Lit('G', x), Lit('Aq', x, y), Lit('Bq', x, z))), R('U', x, z, body=(Lit('G', x), Lit('Bq', x, z)))], ['G'])
   S['chain4'] = (long_chain(4), ['P0', 'P1', 'P2', 'P3'], (0, 1, 6, 4))
   if thorough:
     S['chain6'] = (long_chain(6), ['P%d' % i for i in range(6)], (0, 1, 4))
